@@ -305,3 +305,7 @@ mod test {
         assert_eq!(4, sample.len())
     }
 }
+
+#[cfg(feature = "verif-hooks")]
+#[path = "/verif/kani/hooks_sampled.rs"]
+mod verif_hooks;
